@@ -30,6 +30,7 @@ def step (s : St) (line : String) : St × String :=
   match line.trimAscii.toString.splitOn " " with
   | "ring" :: rest => let (p, o) := ringOp s.prim rest; ({ s with prim := p }, o)
   | "table" :: rest => let (p, o) := tableOp s.prim rest; ({ s with prim := p }, o)
+  | "bstr" :: "bb" :: rest => let (p, o) := bbOp s.prim rest; ({ s with prim := p }, o)
   | "bstr" :: rest => (s, bstrOp rest)
   | "num" :: rest => (s, numOp rest)
   | "fn" :: rest => (s, fnOp rest)
